@@ -73,7 +73,8 @@ class FcdWorld(au.CutWorld):
         return None
 
     # ---- find / slicing / buffer
-    def eval_pred(self, m, st, pred, cls):
+    def eval_pred(self, m, st, pred, cls, wrap=None):
+        wrap = wrap or (lambda c: c)
         sub = ip.State()
         sub.nuid = 10_000
         v = pred
@@ -88,12 +89,12 @@ class FcdWorld(au.CutWorld):
                     raise ClassRefinement("the trigger predicate is %s: its answer is not determined by the character classes %s the rule is stated over" % (v.path, self.alphabet))
                 return h(cls, au.ch(0, cls))
             fr = ip.Frame(body, sub.fresh())
-            fr.locals[1] = au.ch(0, cls)
+            fr.locals[1] = wrap(au.ch(0, cls))
         elif isinstance(v, ip.Clo):
             body = self.prog.body(v.defpath)
             fr = ip.Frame(body, sub.fresh())
             fr.locals[1] = Ref(("val", v))
-            fr.locals[2] = au.ch(0, cls)
+            fr.locals[2] = wrap(au.ch(0, cls))
         else:
             raise AnalysisError("trigger predicate is %r" % (v,))
         sub.frames.append(fr)
@@ -102,13 +103,30 @@ class FcdWorld(au.CutWorld):
             raise AnalysisError("trigger predicate is not a function of the character class (%d outcomes)" % len(outs))
         return outs[0].value
 
-    def str_find(self, m, st, s, pred):
+    def iter_find(self, m, st, it, pred):
+        """`s.chars().find(p)` / `s.char_indices().find(|&(_, c)| p(c))`: the same trigger search, yielding the
+        character / the (byte position, character) pair."""
+        it = deref_all(m, st, it)
+        if not (isinstance(it, Opq) and it.kind in ("chars", "char_indices") and isinstance(it.data[0], Str) and it.data[0].tag == ("input",)):
+            return None
+        trigger_char = Sym(("trigger-char",), "char")
+        if it.kind == "char_indices":
+            r = self.str_find(m, st, it.data[0], pred, wrap=lambda c: Ref(("val", ip.Tup((Sym(("some-pos",), "usize"), c)))))
+            if isinstance(r, Adt) and r.variant == 1:
+                return ip.some(ip.Tup((r.fields[0], trigger_char)))
+            return r
+        r = self.str_find(m, st, it.data[0], pred, wrap=lambda c: Ref(("val", c)))
+        if isinstance(r, Adt) and r.variant == 1:
+            return ip.some(trigger_char)
+        return r
+
+    def str_find(self, m, st, s, pred, wrap=None):
         if not (isinstance(s, Str) and s.tag == ("input",)):
             raise AnalysisError("find on %r, not on the rule's own argument" % (s,))
         if self.trig is None:
             trig = set()
             for cls in self.alphabet:
-                v = self.eval_pred(m, st, pred, cls)
+                v = self.eval_pred(m, st, pred, cls, wrap)
                 if not isinstance(v, I):
                     raise AnalysisError("trigger predicate yields %r for class %s" % (v, cls))
                 if v.v:
@@ -132,6 +150,13 @@ class FcdWorld(au.CutWorld):
         if kind == "RangeFrom":
             return Str(("suffix",))
         raise AnalysisError("slice with %s" % r.ty)
+
+    def split_at(self, m, st, s, mid):
+        if not (isinstance(s, Str) and s.tag == ("input",)):
+            raise AnalysisError("split_at on %r, not on the rule's own argument" % (s,))
+        if not (isinstance(mid, Sym) and mid.name == ("pos",)):
+            raise DisciplineError("split position %s is not the position returned by find: the copied prefix and the mapped suffix must meet exactly there" % (("pos%+d" % mid.name[2]) if isinstance(mid, Sym) and isinstance(mid.name, tuple) and mid.name[0] == "lin" else repr(mid)))
+        return ip.Tup((Ref(("val", Str(("prefix",)))), Ref(("val", Str(("suffix",))))))
 
     def skip_next(self, m, st, itref):
         it = m.load(st, itref.loc) if isinstance(itref, Ref) else itref
